@@ -1,0 +1,43 @@
+//go:build verif
+
+package reader
+
+// Verification instrumentation (build tag verif). Counts reads of the rune
+// reader past end of input so that "keeps reading after EOF" has a
+// deterministic, clock-free definition.
+
+type VerifBudgetExceeded struct {
+	Kind  string
+	Count int
+}
+
+var (
+	// VerifEOFReads counts Read calls answered with 0 because pos >= len(runes).
+	VerifEOFReads int
+	// VerifEOFStreak counts EOF reads since the last VerifResetStreak call
+	// (the parser resets it on every token request).
+	VerifEOFStreak int
+	// VerifEOFBudget: panic with VerifBudgetExceeded when exceeded (0 = off).
+	VerifEOFBudget int
+)
+
+func verifEOF() {
+	VerifEOFReads++
+	VerifEOFStreak++
+	if VerifEOFBudget > 0 && VerifEOFReads > VerifEOFBudget {
+		panic(VerifBudgetExceeded{Kind: "eof-reads", Count: VerifEOFReads})
+	}
+}
+
+func VerifReset(budget int) {
+	VerifEOFReads = 0
+	VerifEOFStreak = 0
+	VerifEOFBudget = budget
+}
+
+func VerifResetStreak() { VerifEOFStreak = 0 }
+
+// VerifPos exposes the cursor: position, input length, pending unget, history length.
+func (lr *LexerReader) VerifPos() (pos int, n int, unget bool, hist int) {
+	return lr.pos, len(lr.runes), lr.ungetFlg, len(lr.history)
+}
